@@ -4180,6 +4180,22 @@ def welcome_oracle(t, steps):
     return fails
 
 
+def registered_oracle(t, steps):
+    """predefined users: user mode +r (registered) is held only by a connection whose USER name is a [[users]] entry, or through
+    default_user_modes.registered - no command gives it to anybody else (seeded C20-f)"""
+    fails = []
+    names = set(u["name"] for u in t.cfg.users)
+    for s in sorted(steps, key=lambda s: s["k"]):
+        d = s.get("dump")
+        if not d:
+            continue
+        for n, u in d["users"].items():
+            if "r" in u["modes"] and u["name"] not in names and "r" not in t.cfg.default_modes:
+                fails.append(("user %s (user name %r) holds +r after step %d (%r) although it is no configured user and +r is no default mode" % (n, u["name"], s["k"], t.events[s["k"]]), {"step": s["k"]}))
+                return fails
+    return fails
+
+
 def check_C20(res):
     rng = random.Random(res.seed + 20)
     n = 1500 if res.tier == "quick" else 15000
@@ -4457,7 +4473,7 @@ def check_C20(res):
     ntr = 40 if res.tier == "quick" else 500
     def cfg_oracle(t, steps):
         # the settings must govern behaviour: welcome burst, and max_joins / predefined channels through the admission rule and the membership relation
-        return welcome_oracle(t, steps) + join_oracle(t, steps) + inv_oracle(t, steps)
+        return welcome_oracle(t, steps) + join_oracle(t, steps) + inv_oracle(t, steps) + registered_oracle(t, steps)
     # max_connections governs how many connections are served at once - and keeps doing so after refusals, closes and
     # failed registrations (the slot histories of C19, under this property's oracle)
     slot_traces = c19_slot_traces(res)
@@ -5210,6 +5226,39 @@ def check_C18(res):
                     if abort_rounds:
                         everyone = cs
                         break
+                # K. fan-out followed by the activity update: a PRIVMSG sent while other connections keep the state lock busy
+                #    (OPER password checks under the write lock) is delivered AND resets the sender's idle time, as it does when
+                #    the commands run one at a time (seeded C18-f: the update skipped when the lock is contended)
+                if rd == 4:
+                    senders, holders = cs[5:8], cs[10:14]
+                    _time.sleep(4.0)                       # the senders have been idle for a while
+                    for h in holders:
+                        h.send("OPER admin wrongpw\r\n" * 8)
+                    _time.sleep(0.3)
+                    t_sent = {}
+                    for k3, c in enumerate(senders):
+                        t_sent[c] = _time.time()
+                        c.send("PRIVMSG %s :idle-probe-%d\r\n" % (names[w], k3))
+                        _time.sleep(0.15)
+                    okd = all(w.wait_for(lambda l, k3=k3: l.endswith(":idle-probe-%d" % k3), tmo=15) for k3 in range(len(senders)))
+                    if not okd:
+                        bad("a PRIVMSG sent while the state lock was busy was not delivered", {"round": rd})
+                    for c in senders:
+                        mk = len(w.lines)
+                        w.send("WHOIS %s\r\n" % names[c])
+                        l = w.wait_for(lambda x: " 317 " in x, tmo=15, start=mk)
+                        t_rep = _time.time()
+                        w.wait_for(lambda x: " 318 " in x, tmo=15, start=mk)
+                        mm = re.search(r" 317 \S+ \S+ (\d+) ", l or "")
+                        stats["idle_after_contended_privmsg"] += 1
+                        if mm is None:
+                            bad("WHOIS %s gives no idle time after the burst" % names[c], {"round": rd})
+                            break
+                        idle, elapsed = int(mm.group(1)), t_rep - t_sent[c]
+                        if idle > elapsed + 1.5:
+                            bad("a PRIVMSG delivered %.1f s ago (sent while the state lock was contended) did not reset the sender's idle time: WHOIS says idle %d s - no one-at-a-time execution gives that" % (elapsed, idle), {"round": rd, "nick": names[c]})
+                            break
+                    pump_all(holders, quiet=0.3, tmo=10.0)
                 # E. every live connection is still served
                 for c in cs:
                     c.send("PING alive%d\r\n" % rd)
@@ -5277,7 +5326,7 @@ def check_C18(res):
         "evaluations": sum(stats.values()) + r["steps"], "distinct_nontrivial": rounds * 5 + r["traces"],
         "rule": "burst scenarios against the real multi-threaded binary, with 4 bystanders keeping the state lock contended: per round %d connections claim one nickname at the same moment (exactly one 001, "
                 "the rest 433), all JOIN one new channel at once (all members, exactly one founder), all JOIN a +l 3 channel at once (3 admitted, the rest 471), 8 of them pipeline 12 numbered PRIVMSG/PING pairs "
-                "(PONG tokens in order on each socket; per sender->receiver pair the sequence 0..11 in order), every connection answers PING afterwards, NAMES and WHO agree, (second round) 6 numbered channel messages sent while four connections keep OPER (password check under the write lock) busy and a member quits - each remaining member gets each exactly once; (fourth round) three connections ask WHO * listing eight invisible users while eight others switch AWAY on and off - every query and every change answered; and (first round) a client that pipelines 12000 LIST/NAMES/WHO queries over 80 channels without ever reading its socket must not keep others from being answered or registering; %d rounds; plus the scan of "
+                "(PONG tokens in order on each socket; per sender->receiver pair the sequence 0..11 in order), every connection answers PING afterwards, NAMES and WHO agree, (second round) 6 numbered channel messages sent while four connections keep OPER (password check under the write lock) busy and a member quits - each remaining member gets each exactly once; (fifth round) three idle senders message a user while four connections keep OPER password checks under the write lock busy - each message is delivered and WHOIS shows the sender's idle time reset; (fourth round) three connections ask WHO * listing eight invisible users while eight others switch AWAY on and off - every query and every change answered; and (first round) a client that pipelines 12000 LIST/NAMES/WHO queries over 80 channels without ever reading its socket must not keep others from being answered or registering; %d rounds; plus the scan of "
                 "lock acquisitions per handler against inventory/lock_shape.json; plus %d sequential histories against the model" % (N, rounds, r["traces"]),
         "traces_validated_against_impl": r["traces"], "burst": dict(stats), "lock_shape_functions": len(shape), "lock_shape_diff": sdiff, "burst_objections_rerun": burst_rerun,
         "samples": [{"round": 0, "claims": N, "channel": "#race0", "limit_channel": "#lim0"}],
